@@ -145,6 +145,21 @@ def run_shard_once(job, shard, seed, tier, extra_miri):
                 res = json.loads(line[7:])
             except Exception:
                 res = None
+    if job.get("verdict") == "exit" and not timed_out:
+        # totality cases: one process each, the verdict is the exit status (a stack overflow aborts the process)
+        prop = job["prop"]
+        ok = rc == 0 and "TOTAL-OK" in so
+        what = " ".join(argv)
+        res = {"events": 1, "evals": {prop: 1}, "distinct": {prop: ["%x" % splitmix(mode, what)]}, "counters": {"c08_totality_cases_%s" % mode: 1}, "maxima": {}, "failures": [], "viol_counts": {},
+               "samples": {prop: ["[%s] %s -> %s" % (mode, what, (so.strip().splitlines() or ["(no output)"])[-1][:200])]}}
+        if rc != 0 or "TOTAL-OK" not in so:
+            if "TOTAL-NONE" in so:
+                res["evals"][prop] = 0
+            else:
+                overflow = "overflowed its stack" in se
+                sig = "totality-stack-overflow" if overflow else ("totality-panic" if "panicked" in se else "totality-died")
+                res["failures"].append({"property": prop, "signature": sig, "kind": "exit", "message": "`%s` (%s build) did not finish: exit status %s; %s" % (what, mode, rc, se.strip()[-300:].replace("\n", " | "))})
+                res["viol_counts"][prop] = 1
     reports = []
     text = so + "\n" + se
     for pat, kind in SAN_PATTERNS:
@@ -325,20 +340,23 @@ def finish(prop, tier, seed, t0, cov, violations, known_hits, reason, results):
         print("KNOWN-FINDING: property=%s %s" % (prop, k["what"]))
     if violations:
         verdict = "violated"
-        seen = set()
-        for i, f in enumerate(violations):
-            key = (f.get("signature"), f.get("mode"))
-            if key in seen and i >= 3:
-                continue
-            seen.add(key)
+        # distinct kinds of witness first; at most two replays per signature family, eight in all
+        fam = lambda f: (str(f.get("signature", "")).split(":")[0], f.get("mode", "native"))
+        count = {}
+        ordered = []
+        for f in violations:
+            count[fam(f)] = count.get(fam(f), 0) + 1
+            if count[fam(f)] <= 2:
+                ordered.append(f)
+        ordered.sort(key=lambda f: 0 if count[fam(f)] else 1)
+        by_first = sorted(ordered, key=lambda f: [g for g in ordered if fam(g) == fam(f)].index(f))
+        for f in by_first[:8]:
             path = os.path.join(REPLAYS, "%s-%s-%s-%d-%d.json" % (prop, f.get("mode", "native"), tier, seed, len(replay_paths)))
             with open(path, "w") as fh:
                 json.dump(dict(f, tier=tier, seed=seed), fh, indent=1)
             replay_paths.append(path)
             print("VIOLATION property=%s replay=%s" % (prop, path))
             print("  %s" % (f.get("message", "")[:500]))
-            if len(replay_paths) >= 6:
-                break
     elif reason or unmet:
         verdict = "inconclusive"
         why = reason or ("non-vacuity floors not met: " + ", ".join(unmet))
